@@ -77,3 +77,58 @@ fn c14_jet_codes_replay() {
     }
     assert!(fails.is_empty(), "{} failing input(s)", fails.len());
 }
+
+// ---------------------------------------------------------------------------------------------------------------------
+// C14, the table clauses no contract reaches (generated `Display` / `FromStr` string tables; cross-family comparison):
+// EXHAUSTIVE over the three finite jet tables, but native - labelled bounded, never counted as proved.
+//   * every jet's name parses back to it, and no two jets of a family share a name;
+//   * every Core jet has an Elements namesake with the same source type and target type, and the same
+//     code behind the family prefix bit (Elements code = '0' + Core code).
+// ---------------------------------------------------------------------------------------------------------------------
+fn names<J: Jet + Copy + std::fmt::Debug + PartialEq + std::fmt::Display + std::str::FromStr>(name: &str, all: &[J], fails: &mut Vec<String>) {
+    let mut seen = std::collections::HashMap::new();
+    for j in all {
+        let s = j.to_string();
+        match s.parse::<J>() {
+            Ok(k) if k == *j => {}
+            Ok(k) => fails.push(format!("family={} jet={:?} prints as {:?}, which parses to the different jet {:?}", name, j, s, k)),
+            Err(_) => fails.push(format!("family={} jet={:?} prints as {:?}, which does not parse", name, j, s)),
+        }
+        if let Some(prev) = seen.insert(s.clone(), *j) {
+            fails.push(format!("family={} jets {:?} and {:?} both print as {:?}", name, prev, j, s));
+        }
+    }
+}
+
+#[test]
+fn c14_jet_names_replay() {
+    let mut fails = Vec::new();
+    names("Core", &Core::ALL, &mut fails);
+    names("Elements", &Elements::ALL, &mut fails);
+    names("Bitcoin", &Bitcoin::ALL, &mut fails);
+    for c in Core::ALL.iter() {
+        let name = c.to_string();
+        let e = match Elements::ALL.iter().find(|e| e.to_string() == name) {
+            Some(e) => e,
+            None => {
+                fails.push(format!("Core jet {:?} ({}) has no Elements namesake", c, name));
+                continue;
+            }
+        };
+        if c.source_ty().to_final() != e.source_ty().to_final() || c.target_ty().to_final() != e.target_ty().to_final() {
+            fails.push(format!("Core jet {:?}: {} -> {}, but its Elements namesake: {} -> {}", c, c.source_ty().to_final(), c.target_ty().to_final(), e.source_ty().to_final(), e.target_ty().to_final()));
+        }
+        let (cb, cn) = encode(c);
+        let (eb, en) = encode(e);
+        if en != cn + 1 || bits_of(&eb, en) != format!("0{}", bits_of(&cb, cn)) {
+            fails.push(format!("Core jet {:?} has code {}, its Elements namesake {} (expected '0' + the Core code)", c, bits_of(&cb, cn), bits_of(&eb, en)));
+        }
+        if fails.len() > 20 {
+            break;
+        }
+    }
+    for f in &fails {
+        println!("CEX: {}", f);
+    }
+    assert!(fails.is_empty(), "{} failing jet(s)", fails.len());
+}
